@@ -588,6 +588,35 @@ def index_agreement(ctx, rule='C08.index-agreement'):
                             if l2 is not None and e_local in du.slice_local(l2)[0]:
                                 dec = True
                 conv.append((fn, bb, si, 'slot before the missing key (i - 1)' if dec else 'insertion slot (i)'))
+        # ... or through an adaptor with a closure: `result.unwrap_or_else(|i| i.saturating_sub(1))`
+        for bb in sorted(fn.reachable_blocks()):
+            t = fn.term(bb)
+            c = callee_of(t) if t['k'] == 'call' else None
+            if not c or last_seg(strip_generics(c['path'])) not in ('unwrap_or_else', 'map_or_else', 'or_else', 'map_err') or len(t['args']) < 2:
+                continue
+            if 'Result<usize, usize>' not in (c.get('self_ty') or '') and 'Result<usize, usize>' not in str(fn.locals[op_local(t['args'][0])]['ty'] if op_local(t['args'][0]) is not None else ''):
+                continue
+            clos = None
+            for a in t['args'][1:]:
+                la = op_local(a)
+                if la is None:
+                    continue
+                for b3 in fn.reachable_blocks():
+                    for s3 in fn.blocks[b3]['stmts']:
+                        if s3['k'] == 'assign' and s3['p']['l'] == la and s3['rv']['k'] == 'agg' and s3['rv'].get('ak') == 'closure':
+                            clos = F.by_path.get(s3['rv']['closure'])
+            if clos is None:
+                continue
+            dec = False
+            for b3 in clos.reachable_blocks():
+                t3 = clos.term(b3)
+                c3 = callee_of(t3) if t3['k'] == 'call' else None
+                if c3 and last_seg(strip_generics(c3['path'])) in ('saturating_sub', 'checked_sub', 'wrapping_sub'):
+                    dec = True
+                for s3 in clos.blocks[b3]['stmts']:
+                    if s3['k'] == 'assign' and s3['rv']['k'] == 'bin' and s3['rv']['op'].startswith('Sub'):
+                        dec = True
+            conv.append((fn, bb, None, 'slot before the missing key (i - 1)' if dec else 'insertion slot (i)'))
     ctx.stats['binary_searches_under_index'] = nsearch
     f = floor(rule, 'binary searches reachable from the index role', nsearch, 2) or floor(rule, 'handled binary-search misses', len(conv), 1)
     if f:
@@ -597,7 +626,7 @@ def index_agreement(ctx, rule='C08.index-agreement'):
         for fn, bb, si, k in conv:
             res.append(bad(rule, '%s | missing key resolved to the %s' % (fn.qual, k.split(' (')[0]),
                            'lookups reachable from %s disagree on where a missing key points: %s at %s, while another site uses %s. Page-backed and node-backed nodes must agree, '
-                           'otherwise seek / range starts differ between untouched and modified leaves' % (idx.qual, k, fn.loc(bb, si), sorted(kinds - {k})), where=fn.loc(bb, si)))
+                           'otherwise seek / range starts differ between untouched and modified leaves' % (idx.qual, k, fn.loc(bb, si) if si is not None else fn.loc(bb), sorted(kinds - {k})), where=fn.loc(bb, si) if si is not None else fn.loc(bb)))
     else:
         res.append(ok(rule, '%d binary searches under %s; every miss is resolved the same way (%s)' % (nsearch, idx.qual, ', '.join(kinds)), sites=nsearch))
     return res
